@@ -23,6 +23,11 @@ let run_verify path : int =
       (Filename.quote (verify_bin ())) (Filename.quote path) in
   match Unix.system cmd with Unix.WEXITED c -> c | Unix.WSIGNALED s -> 1000 + abs s | Unix.WSTOPPED _ -> 2000
 
+(* several files on one command line: the intact one first, the damaged one second *)
+let run_verify2 first second : int =
+  let cmd = Printf.sprintf "%s %s %s >/dev/null 2>&1" (Filename.quote (verify_bin ())) (Filename.quote first) (Filename.quote second) in
+  match Unix.system cmd with Unix.WEXITED c -> c | Unix.WSIGNALED s -> 1000 + abs s | Unix.WSTOPPED _ -> 2000
+
 (* a verifying reader in a child; returns (how it ended, entries returned) *)
 type rop = RIterAll | RGet of string | RSeekInto of string | RPrefix of string | RRange of string * string
          | RAfterLater of string * string   (* on ONE reader: first a lookup that loads a later block, then the lookup into the damaged one *)
@@ -164,6 +169,9 @@ let run ~tier ~seed ~only acc =
                 bump acc (Printf.sprintf "stored_len_mod8=%d" ((sz - hl - 4) mod 8));
                 Rd.write_file cpath bad;
                 let v = run_verify cpath in
+                (* the same damaged file named second on the command line, after the intact one *)
+                if (!idx mod 7 = 0 || i = nb) && run_verify2 path cpath = 0 then
+                  fail acc ~kind:"spec_violation" ~what:"[C12] mtbl_verify reports OK (exit status 0) when the damaged file is the second file on its command line" (Lazy.force case);
                 let mv = model_verify bad in
                 if v = 0 then fail acc ~kind:"spec_violation" ~what:"[C12] mtbl_verify reports a damaged file OK" (Lazy.force case);
                 let impl_class = if v = 0 then "OK" else if v >= 128 then "ABORT" else "FAILED" in
